@@ -32,7 +32,10 @@ META = {
              "the dtype admits the class of value the real decoder produces; that the per-APID accumulation loop of create_dataset yields one row per "
              "packet in stream order over a list of files and rejects differing field sets; and that string / binary cells are lossless EXCEPT for the "
              "recorded known finding (values ending in NUL are truncated by numpy's S / U dtypes).  Array construction inside numpy / xarray is "
-             "covered only through the stated contracts and by replaying counterexamples through the real create_dataset.",
+             "covered only through the stated contracts and by replaying counterexamples through the real create_dataset.  END TO END (dataset-e2e): the real "
+             "create_dataset opens a SYMBOLIC packet file (flat template TD, APIDs in {5, 300}; quick 2 packets, thorough 3), runs the real generators with "
+             "packet_generator_kwargs (record prefix, chunked reads, bad-packet filter), and z3 proves that the packets reaching the accumulation are exactly "
+             "those Spec-XTCE decodes and that every column of every per-APID dataset holds exactly those packets' values (raw values on request), in file order.",
     "trusted": "numpy's documented dtype ranges and fixed-width S/U semantics; xarray.Dataset stores the arrays it is given; z3; BV proxies",
     "bounds": {"sizes": "1..64 bits symbolic (65..128 for the known finding)", "files": "<= 2 files x <= 3 packets, APIDs in {a, b}",
                "string / binary fields": "2-byte fields, all contents"},
